@@ -233,9 +233,9 @@ func NewGasEnv() (*GasEnv, error) {
 // gasCall is one planned execution.
 type gasCall struct {
 	Fn     string
-	DstNil bool // the destination account lives on another shard
-	In   func() *vmcommon.ContractCallInput // fresh input object for every execution
-	M, N int                                // measured at schedule 1
+	DstNil bool                               // the destination account lives on another shard
+	In     func() *vmcommon.ContractCallInput // fresh input object for every execution
+	M, N   int                                // measured at schedule 1
 }
 
 func blob(r *rand.Rand, max int) []byte {
